@@ -3,6 +3,7 @@ package main
 // encoding/json, bytes.Buffer and go-jose models.
 
 import (
+	"encoding/json"
 	"fmt"
 	"go/types"
 	"reflect"
@@ -105,6 +106,31 @@ func (ex *Exec) jsonUnmarshal(data *Term, target Value) Value {
 		ex.decodeCarrier(data, doc, p, pt.Elem(), true)
 		return Iface{}
 	}
+	if data.IsLit() {
+		// a concrete document: syntax and top-level kind are decided exactly
+		var probe interface{}
+		if err := json.Unmarshal([]byte(data.S), &probe); err != nil {
+			return ex.jsonError("Syntax")
+		}
+		if _, isObj := probe.(map[string]interface{}); !isObj && probe != nil {
+			et := pt.Elem()
+			for {
+				if pp, ok := et.Underlying().(*types.Pointer); ok {
+					et = pp.Elem()
+					continue
+				}
+				break
+			}
+			switch et.Underlying().(type) {
+			case *types.Struct, *types.Map:
+				if _, custom := ex.hasMethod(types.NewPointer(et), "UnmarshalJSON"); !custom || true {
+					// encoding/json: cannot unmarshal array/string/number/bool into a struct or map; the
+					// repository's custom decoders of claim structs all delegate to that rule
+					return ex.jsonError("UnmarshalType")
+				}
+			}
+		}
+	}
 	// arbitrary document: deterministic per (data, type)
 	okT := UF("json.ok", SBool, data, StrLit(types.TypeString(pt.Elem(), nil)))
 	if !ex.Branch(okT) {
@@ -202,7 +228,14 @@ func (ex *Exec) decodeArbitrary(data *Term, dst Ptr, t types.Type, tag string, d
 	if pp, isP := t.Underlying().(*types.Pointer); isP {
 		// JSON null leaves nil; otherwise allocate
 		if top || depth <= 1 {
-			if ex.Choose(2) == 1 {
+			isNull := false
+			if top && depth == 0 {
+				// the document is the JSON literal null (surrounded by JSON whitespace at most)
+				isNull = ex.Branch(Eq(trimSpaceTerm(data), StrLit("null")))
+			} else {
+				isNull = ex.Choose(2) == 1
+			}
+			if isNull {
 				ex.choices = append(ex.choices, ChoiceRec{Tag: tag + ".null", V: 1})
 				*dst.slot() = Ptr{}
 				return
@@ -381,7 +414,20 @@ func (ex *Exec) jsonMarshal(v Value) *Term {
 	iv := v.(Iface)
 	k := ex.counters["jsonenc"]
 	ex.counters["jsonenc"]++
+	if iv.T == nil {
+		return StrLit("null")
+	}
+	if p, ok := iv.V.(Ptr); ok && p.Obj == nil {
+		if _, custom := ex.hasMethod(iv.T, "MarshalJSON"); !custom {
+			return StrLit("null")
+		}
+	}
 	b := ex.fresh(fmt.Sprintf("jsonenc%d", k), SSeq, "env")
+	// the encoding of a non-nil value is not the literal null (objects start with '{', strings with '"', ...)
+	switch iv.V.(type) {
+	case Ptr, *StructV, *Term:
+		ex.assume(Not(Eq(trimSpaceTerm(b), StrLit("null"))))
+	}
 	ex.registerDoc(b, &jsonDoc{src: ex.snapshotIface(iv)})
 	ex.ghost["json.last"] = iv
 	return b
@@ -690,4 +736,11 @@ func (ex *Exec) ghostList(k string) Tuple {
 		return v.(Tuple)
 	}
 	return nil
+}
+
+func trimSpaceTerm(t *Term) *Term {
+	if t.IsLit() {
+		return StrLit(strings.TrimSpace(t.S))
+	}
+	return UF("bytes.TrimSpace", SSeq, t)
 }
